@@ -91,6 +91,8 @@ pub struct Ctx<'a> {
     pub calls: u64,
     pub nontrivial: bool,
     pub out_hash: u64,
+    /// set by a case that the family filters out (not counted)
+    pub skipped: bool,
 }
 
 impl<'a> Ctx<'a> {
@@ -157,9 +159,13 @@ fn run_family_cases(args: &Args, fams: &[Family], acc: &mut Acc, shard: (u64, u6
         let mut idx = off;
         while idx < f.count {
             guard::beat(fi, idx);
-            let mut ctx = Ctx { acc, fam: f.name, idx, tier: &args.tier, verbose, calls: 0, nontrivial: false, out_hash: 0 };
+            let mut ctx = Ctx { acc, fam: f.name, idx, tier: &args.tier, verbose, calls: 0, nontrivial: false, out_hash: 0, skipped: false };
             (f.run)(idx, &mut ctx);
             let (c, nt, oh) = (ctx.calls, ctx.nontrivial, ctx.out_hash);
+            if ctx.skipped {
+                idx += sn;
+                continue;
+            }
             cases += 1;
             calls += c;
             if nt {
@@ -223,7 +229,7 @@ pub fn main_check(spec: Spec, make: impl Fn(&Args) -> Vec<Family>, make_parts: i
         let f = fams.iter().find(|f| f.name == fam).expect("family exists");
         let mut acc = Acc::default();
         println!("replaying {} family={} index={} case={}", spec.prop, fam, idx, (f.describe)(idx));
-        let mut ctx = Ctx { acc: &mut acc, fam: f.name, idx, tier: &a2.tier, verbose: true, calls: 0, nontrivial: false, out_hash: 0 };
+        let mut ctx = Ctx { acc: &mut acc, fam: f.name, idx, tier: &a2.tier, verbose: true, calls: 0, nontrivial: false, out_hash: 0, skipped: false };
         guard::BUSY.store(true, std::sync::atomic::Ordering::Relaxed);
         guard::watchdog(20, |_, _| {
             println!("  violation: nontermination (no progress for 20 s)");
